@@ -282,6 +282,9 @@ def g1_discharged(st, kind, what, fn_summ):
             if known_some(pc, ("call", GET, (base, idx))):
                 return "contains_key(map, key) dominates map[key]"
             return None
+        tbl = enum_table_index(st)
+        if tbl:
+            return tbl
         pos = position_index(idx)
         if pos is not None and known_some(pc, pos[0]):
             # tokens[i], tokens[..i], tokens[i+1..]: i is a valid position of the same slice
@@ -323,6 +326,23 @@ def g1_discharged(st, kind, what, fn_summ):
 
 
 _PROG = None
+
+
+def enum_table_index(st):
+    """`TABLE[variant as usize]`: the discriminant of a field-less enum without explicit discriminants is smaller than its number of
+    variants, so a literal table with at least that many entries is indexed in bounds."""
+    base = st.args[0]
+    while base[0] == "call" and isinstance(base[1], str) and last(base[1]) in ("clone", "deref", "borrow", "as_slice", "as_ref") and len(base[2]) == 1:
+        base = base[2][0]
+    idx = st.args[1]
+    if base[0] != "array" or _PROG is None or not (idx[0] == "call" and isinstance(idx[1], str) and idx[1].startswith("#discriminant:")):
+        return None
+    ty = idx[1].split(":", 1)[1]
+    adt = _PROG.adts.get(ty)
+    if adt and adt.get("kind") == "enum" and adt.get("variants") and len(adt["variants"]) <= len(base[1]) \
+            and all(not v.get("fields") and v.get("explicit_discr") is False for v in adt["variants"]):
+        return f"the index is the discriminant of {ty.rsplit('::', 1)[-1]} ({len(adt['variants'])} field-less variants) into a table of {len(base[1])} entries"
+    return None
 
 
 def closure(pc):
